@@ -40,8 +40,8 @@ ASSUMPTIONS = [
     "importing a parent package on the way to an allowed submodule is not counted as a resolution in a disallowed module",
     "identity is demanded for mutable nodes (list, dict, set, instance) only; tuples/frozensets are compared structurally",
 ]
-MIN = {"quick": {"evaluations": 20000, "nontrivial": 5000, "outcomes": 6},
-       "thorough": {"evaluations": 20000, "nontrivial": 5000, "outcomes": 6}}
+MIN = {"quick": {"evaluations": 170000, "nontrivial": 120000, "outcomes": 6},
+       "thorough": {"evaluations": 170000, "nontrivial": 120000, "outcomes": 6}}
 
 # ----------------------------------------------------------------------------------------------
 # scratch package
@@ -722,11 +722,13 @@ def child_options(n, natoms, maxkids):
     return out
 
 
-def graph_specs(n, kinds_by_level, natoms, maxkids):
+def graph_specs(n, kinds_by_level, natoms, maxkids, part=0, nparts=1):
     """All specs with exactly n nodes, every node reachable from node 0, nodes numbered in BFS discovery order
-    (canonical numbering removes relabelled duplicates)."""
+    (canonical numbering removes relabelled duplicates).  ``part/nparts`` deals the root node's options out to
+    shards."""
     co = child_options(n, natoms, maxkids)
     per_node = [[(k, kids) for k in kinds_by_level[min(i, len(kinds_by_level) - 1)] for kids in co] for i in range(n)]
+    per_node[0] = per_node[0][part::nparts]
     for spec in itertools.product(*per_node):
         # BFS order check
         order, seen = [0], {0}
@@ -794,14 +796,14 @@ def shards(tier, seed):
     return [["sec", i] for i in range(NSEC)] + [["rt", i] for i in range(NRT)] + [["atoms", 0]]
 
 
-def rt_specs(tier):
+def rt_specs(tier, part, nparts):
     full = [KINDS]
-    yield from graph_specs(1, full, 2, 3)
-    yield from graph_specs(2, full, 2, 3 if tier == "thorough" else 2)
+    yield from graph_specs(1, full, 2, 3, part, nparts)
+    yield from graph_specs(2, full, 2, 3 if tier == "thorough" else 2, part, nparts)
     if tier == "thorough":
-        yield from graph_specs(3, full, 1, 2)
+        yield from graph_specs(3, full, 1, 2, part, nparts)
     else:
-        yield from graph_specs(3, [KINDS, KINDS, ["list", "tuple", "dictk", "set", "inst"]], 1, 2)
+        yield from graph_specs(3, [KINDS, KINDS, ["list", "tuple", "dictk", "set", "inst"]], 1, 2, part, nparts)
 
 
 def run_shard(shard, tier, seed):
@@ -822,12 +824,10 @@ def run_shard(shard, tier, seed):
                     stats.sample({"sexp": sexp})
         elif kind == "rt":
             n = 0
-            for spec in rt_specs(tier):
+            for spec in rt_specs(tier, idx, NRT):
                 n += 1
-                if n % NRT != idx:
-                    continue
                 roundtrip_case(env, stats, spec)
-                if n % 100003 == 0:
+                if n % 20011 == 0:
                     stats.sample({"graph": spec})
         else:
             atom_roundtrips(env, stats)
